@@ -224,9 +224,17 @@ func runC16(c c16Case) (r vf.Result) {
 				r.Fail("qos1-not-delivered", "%s: the handler never ran\n%s", desc, s.Dump(50))
 				return
 			}
-			if acks != 1 {
-				r.Fail(fmt.Sprintf("qos1-broker-pubacks=%d", min(acks, 2)), "%s: the broker received %d PUBACKs (handler ran %d times)\n%s", desc, acks, runs, s.Dump(50))
+			if acks < 1 {
+				r.Fail("qos1-broker-pubacks=0", "%s: the broker received no PUBACK (handler ran %d times)\n%s", desc, runs, s.Dump(50))
 				return
+			}
+			if acks > 1 {
+				// The statement asks for the PUBACK to reach the broker, not for it to come only once
+				// (an MQTT server ignores a PUBACK it does not wait for): counted, not judged. The
+				// defect which used to cause it (a retry timer firing at the instant of progress
+				// retried the new step, i.e. the PUBACK towards the broker) is judged by C19.
+				r.Label("extra-broker-puback")
+				vf.Count("c16_extra_broker_pubacks", acks-1)
 			}
 		} else {
 			if st := s.Broker.Out[mid]; st != "done" {
